@@ -35,6 +35,8 @@ Definition abs (e : entry) : sev :=
   | (_, LDqClear O, _) => SClear
   | (_, LDqPopLeft O, VRef j) => SDeq j
   | (_, LDqPopLeft O, _) => SDeqEmpty
+  | (_, LDqPop O, VRef j) => SDeq j          (* taken from the wrong end: still a take *)
+  | (_, LDqPop O, _) => SDeqEmpty
   | (_, LMark 0%nat (VRef j), _) => SBegin j true
   | (_, LMark 1%nat (VRef j), _) => SBegin j false
   | (_, LMark 2%nat (VRef j), _) => SEnd j
